@@ -432,3 +432,79 @@ Theorem C13_front_ends_reverse_any_axis I MC m p (f2 : R -> R -> R) (f3 : R -> R
   integrate_3d ROps I MC m f3 x1 x2 y1 y2 z2 z1 p = rmap Ropp (integrate_3d ROps I MC m f3 x1 x2 y1 y2 z1 z2 p).
 Proof. exact (integrate_2d_3d_reverse_axis I MC m p f2 f3 x1 x2 y1 y2 z1 z2). Qed.
 Print Assumptions C13_front_ends_reverse_any_axis.
+
+(** * Two of the four boost quadratures as model terms (C13_Model2.v, theorems of C13_Proofs_Boost.v): "Gauss-Legendre" = gauss<double,30>::integrate and
+    "Trapezoidal" = trapezoidal with its default tolerance 2^-26 and 12 refinements, line by line from the boost 1.83 headers; [with_modelled_backends I0]
+    is the table of back ends with these two filled in ([I0] remains for gauss_kronrod<31> and tanh_sinh). *)
+From LP Require Import C13_Model2 C13_Proofs_Boost.
+
+(** "method-name dispatch onto boost quadrature": Integrate hands ordered, distinct limits to the boost functions, whose own branches for equal and for
+    reversed limits are therefore not taken *)
+Theorem C13_boost_entry_branches_not_taken (f : R -> res R) a b : a < b ->
+  boost_gauss30 ROps f a b = gauss30_core ROps f a b /\ boost_trapezoidal ROps f a b = trap_core ROps f a b.
+Proof. exact (fun H => conj (boost_gauss30_forward f a b H) (boost_trapezoidal_forward f a b H)). Qed.
+Print Assumptions C13_boost_entry_branches_not_taken.
+
+(** the premise [backend_odd] of C13_reverse_any_axis is a THEOREM for these two rules: gauss<30> is linear in the values of the integrand, and the stopping
+    test of the trapezoidal rule (error > tol * IL1) sees |I0 - I1| and the sums of |y| only - induction over the refinement loop and the sums *)
+Theorem C13_gauss30_and_trapezoidal_odd (f : R -> res R) a b :
+  boost_gauss30 ROps (fun x => rmap Ropp (f x)) a b = rmap Ropp (boost_gauss30 ROps f a b) /\
+  boost_trapezoidal ROps (fun x => rmap Ropp (f x)) a b = rmap Ropp (boost_trapezoidal ROps f a b).
+Proof. exact (conj (boost_gauss30_odd f a b) (boost_trapezoidal_odd f a b)). Qed.
+Print Assumptions C13_gauss30_and_trapezoidal_odd.
+
+Theorem C13_modelled_backends_preserve_oddness I0 : backend_odd I0 -> backend_odd (with_modelled_backends ROps I0).
+Proof. exact (with_modelled_backends_odd I0). Qed.
+Print Assumptions C13_modelled_backends_preserve_oddness.
+
+(** "reversing the limits negates the result", "all limit orientations per axis" - with NO premise on external code for four of the six names:
+    exchanging the limits of any one axis of a stack of calls of Integrate of any depth (Integrate_2D, Integrate_3D, towers) negates the result *)
+Theorem C13_reverse_any_axis_four_methods I0 m p (l1 l2 : list (R * R)) a b (f : list R -> res R) pt :
+  m = M_Trapezoidal \/ m = M_GaussLegendre \/ m = M_GaussLegendre2 \/ m = M_AdaptiveSimpson ->
+  let J := fun g u v => integrate_named ROps (with_modelled_backends ROps I0) m g u v p in
+  nest_nd J (l1 ++ (b, a) :: l2) f pt = rmap Ropp (nest_nd J (l1 ++ (a, b) :: l2) f pt).
+Proof. exact (stack_reverse_axis_modelled I0 m p l1 l2 a b f pt). Qed.
+Print Assumptions C13_reverse_any_axis_four_methods.
+
+(** "every named one-dimensional method returns the exact integral within that method's accuracy (... 1e-6 for Trapezoidal)" - for "Trapezoidal" on every
+    polynomial of degree <= 1 the result IS the integral, for every orientation of the limits, equal limits, every method_parameter, at whatever
+    refinement level the loop stops (induction over the loop; the sum over the odd points in closed form by induction over their number) *)
+Theorem C13_trapezoidal_exact_on_affine I0 (k0 k1 : R) a b p :
+  let g := fun x => k0 + k1 * x in
+  integrate_named ROps (with_modelled_backends ROps I0) M_Trapezoidal (okf g) a b p = Ok (RInt g a b).
+Proof. exact (trapezoidal_affine_exact k0 k1 I0 a b p). Qed.
+Print Assumptions C13_trapezoidal_exact_on_affine.
+
+(** "... (1e-9 relative for Gauss-Legendre ...)" - for "Gauss-Legendre" on every polynomial of degree <= 1: the result is exactly (1 + 2e-20) times the integral
+    (the 30 weights as the header writes them in decimal add up to 1 + 2e-20), hence within 1e-9 relative, for every orientation of the limits *)
+Theorem C13_gauss_legendre_on_affine I0 (k0 k1 : R) a b p :
+  let g := fun x => k0 + k1 * x in
+  integrate_named ROps (with_modelled_backends ROps I0) M_GaussLegendre (okf g) a b p
+  = Ok (50000000000000000001 / 50000000000000000000 * RInt g a b).
+Proof. exact (gauss_legendre_affine k0 k1 I0 a b p). Qed.
+Print Assumptions C13_gauss_legendre_on_affine.
+
+Theorem C13_gauss_legendre_accuracy_on_affine I0 (k0 k1 : R) a b p r :
+  let g := fun x => k0 + k1 * x in
+  integrate_named ROps (with_modelled_backends ROps I0) M_GaussLegendre (okf g) a b p = Ok r ->
+  Rabs (r - RInt g a b) <= 1 / 1000000000 * Rabs (RInt g a b).
+Proof. exact (gauss_legendre_affine_accuracy k0 k1 I0 a b p r). Qed.
+Print Assumptions C13_gauss_legendre_accuracy_on_affine.
+
+(** the sample-count clause of the check for "Gauss-Legendre", over ANY number type (the doubles of the extracted model included): a call that returns has
+    evaluated the integrand exactly once at each of the 30 points avg + scale * (+x_i), avg + scale * (-x_i), i = 1..15, in that order, and nowhere else *)
+Theorem C13_gauss30_samples {T} (Ops : NumOps T) (f : T -> res T) a b r : gauss30_core Ops f a b = Ok r ->
+  let avg := nmul Ops (nadd Ops a b) (half Ops) in
+  let scale := nmul Ops (nsub Ops b a) (half Ops) in
+  exists fv, List.length fv = 30%nat /\ List.length (gauss_nodes Ops (gauss30_table Ops)) = 30%nat /\
+    Forall2 (fun z y => f (nadd Ops avg (nmul Ops scale z)) = Ok y) (gauss_nodes Ops (gauss30_table Ops)) fv.
+Proof. exact (gauss30_samples Ops f a b r). Qed.
+Print Assumptions C13_gauss30_samples.
+
+(** "each argument of the integrand receives the variable of its own pair of limits" - the variable stays within that pair: over the reals both rules
+    evaluate the integrand within [a, b] only (gauss<30>: |x_i| <= 1 for the 15 literals; trapezoidal: a, b and a + j (b-a)/2^k with j odd, 0 < j < 2^k,
+    for every refinement level k), so two integrands that agree on [a, b] have the same answer, terminating ones included *)
+Theorem C13_gauss30_and_trapezoidal_sample_within_limits (f g : R -> res R) a b : a < b -> (forall x, a <= x <= b -> f x = g x) ->
+  boost_gauss30 ROps f a b = boost_gauss30 ROps g a b /\ boost_trapezoidal ROps f a b = boost_trapezoidal ROps g a b.
+Proof. exact (fun H1 H2 => conj (gauss30_local f g a b H1 H2) (trapezoidal_local f g a b H1 H2)). Qed.
+Print Assumptions C13_gauss30_and_trapezoidal_sample_within_limits.
